@@ -150,7 +150,7 @@ def run(ctx):
                 "non-trivial = distinct (pending-events relation to "
                 "collection size at a lookup, tree built?, counts)")
     tie = core.BatchTie(ctx, "index", "index", flush_at=25)
-    for h in range(ctx.scale(40, 2500)):
+    for h in range(ctx.scale(80, 2500)):
         one(ctx, h, tie)
         if len(ctx.violations) >= 3:
             break
